@@ -36,6 +36,8 @@ const reflectPrelude = `(declare-fun kindOfTid (Int) Int)
 (declare-fun vlen (Iface) Int)
 (declare-fun vindex (Iface Int) Iface)
 (assert (forall ((v Iface)) (! (>= (vlen v) 0) :pattern ((vlen v)))))
+(declare-fun vnumfield (Iface) Int)
+(assert (forall ((v Iface)) (! (>= (vnumfield v) 0) :pattern ((vnumfield v)))))
 (declare-fun itoa (Int) String)
 (declare-fun atoi (String) Int)
 (declare-fun isDecInt (String) Bool)
@@ -207,7 +209,8 @@ func init() {
 	libModels["reflect.(Value).Bytes"] = one(func(c *FnCtx, a []string, st *State) string { return "(isl " + a[0] + ")" })
 	// Len / Index of a slice-, array- or map-kinded Value: uninterpreted functions of the Value with Len >= 0
 	libModels["reflect.(Value).Len"] = one(func(c *FnCtx, a []string, st *State) string { return "(vlen " + a[0] + ")" })
-	libModels["reflect.(Value).Index"] = one(func(c *FnCtx, a []string, st *State) string { return "(vindex " + a[0] + " " + a[1] + ")" })
+	libModels["reflect.(Value).NumField"] = one(func(c *FnCtx, a []string, st *State) string { return "(vnumfield " + a[0] + ")" })
+	libModels["reflect.(Value).Index"] =one(func(c *FnCtx, a []string, st *State) string { return "(vindex " + a[0] + " " + a[1] + ")" })
 	libModels["reflect.(Value).Convert"] =func(c *FnCtx, x *ast.CallExpr, fobj *types.Func, a []string, st *State) []string {
 		c.useReflect()
 		r := c.fresh("conv", sIface)
